@@ -1,5 +1,6 @@
 import HpoProofs.SetOps
 import HpoModel.Num
+import HpoProps.C03
 /-!
 # C13 — HpoSet filters, replacements and aggregates are exact
 
@@ -197,6 +198,41 @@ theorem C13_ic_value {F : Type} [Num F] (c t : Nat) :
     (icValue (c, t) : Option F) =
       if t = 0 ∨ c = 0 then some (Num.ofNat 0)
       else (Num.div? (Num.ofNat c : F) (Num.ofNat t)).map (fun q => Num.neg (Num.log q)) := rfl
+
+/-- **The value.** Under the hypotheses of `C13_ic_pairs` the aggregated information content of the
+set is, over the reals, `-ln(|∪ genes of the members| / N_genes)` resp. `-ln(|∪ diseases| / N_omim)`,
+never negative; and for EVERY monotone rounding (`Rounding`, C03) it is defined and `≥ 0`. -/
+theorem C13_ic_real (o : Onto) (S G D : List Nat) (h : Resolves o S)
+    (hG : geneIds o S = .ok G) (hD : omimDiseaseIds o S = .ok D)
+    (h1 : 0 < G.length) (h2 : 0 < D.length)
+    (h3 : o.genes.length ≤ 65535) (h4 : o.omim.length ≤ 65535)
+    (h5 : G.length ≤ o.genes.length) (h6 : D.length ≤ o.omim.length) :
+    ∃ p, informationContent o S = .ok p ∧
+      (icValue p.1 : Option ℝ) = some (-Real.log ((G.length : ℝ) / (o.genes.length : ℝ))) ∧
+      (icValue p.2.1 : Option ℝ) = some (-Real.log ((D.length : ℝ) / (o.omim.length : ℝ))) ∧
+      0 ≤ -Real.log ((G.length : ℝ) / (o.genes.length : ℝ)) ∧
+      0 ≤ -Real.log ((D.length : ℝ) / (o.omim.length : ℝ)) ∧
+      ∀ R : Rounding, (∃ v, (icValue p.1 : Option (RVal R)) = some v ∧ 0 ≤ v.v) ∧
+        (∃ v, (icValue p.2.1 : Option (RVal R)) = some v ∧ 0 ≤ v.v) := by
+  have hp := C13_ic_pairs o S G D h hG hD h1 h2 h3 h4 (by omega) (by omega) (by omega) (by omega)
+  have eG : icPair o.genes.length G.length = (G.length, o.genes.length) := by
+    unfold icPair; rw [if_neg (by omega)]
+  have eD : icPair o.omim.length D.length = (D.length, o.omim.length) := by
+    unfold icPair; rw [if_neg (by omega)]
+  have vG := Hpo.C03.C03_value o.genes.length G.length
+  have vD := Hpo.C03.C03_value o.omim.length D.length
+  rw [eG, if_neg (by omega)] at vG
+  rw [eD, if_neg (by omega)] at vD
+  obtain ⟨wG, hwG, nG⟩ := Hpo.C03.C03_nonneg o.genes.length G.length h5
+  obtain ⟨wD, hwD, nD⟩ := Hpo.C03.C03_nonneg o.omim.length D.length h6
+  rw [eG, vG] at hwG
+  rw [eD, vD] at hwD
+  cases hwG; cases hwD
+  refine ⟨_, hp, vG, vD, nG, nD, fun R => ⟨?_, ?_⟩⟩
+  · have := Hpo.C03.C03_nonneg_rounded R o.genes.length G.length h5 h3
+    rwa [eG] at this
+  · have := Hpo.C03.C03_nonneg_rounded R o.omim.length D.length h6 h4
+    rwa [eD] at this
 
 /-- each in-place operation yields the same set as its copying counterpart (for every input,
 also when it panics) -/
